@@ -1262,6 +1262,59 @@ func c06CheckProd(c c06ProdCase) engine.Result {
 	return res
 }
 
+// ---- scenario "repeated-entries" --------------------------------------------------------------------------
+
+type c06RepCase struct {
+	N        int  `json:"streams"`
+	I, J     int  // entry J repeats the PID of entry I
+	SameType bool `json:"same_stream_type"`
+	Descs    int  `json:"descriptor_variant"` // 0 none, 1 only the first has descriptors, 2 only the repeat, 3 both (different)
+}
+
+// "any list of elementary streams": a list may name one PID twice (with the same or another stream_type, with
+// or without descriptors); what is decoded is the list, entry for entry.
+func c06CheckRep(c c06RepCase) engine.Result {
+	var res engine.Result
+	types := []byte{0x1B, 0x0F, 0x86, 0x06}
+	sec := ref.PMTSection{Program: 3, Version: 7, CurrentNext: true, PCRPID: 0x200}
+	for k := 0; k < c.N; k++ {
+		sec.Streams = append(sec.Streams, ref.Stream{Type: types[k%4], PID: 0x200 + k})
+	}
+	sec.Streams[c.J].PID = sec.Streams[c.I].PID
+	if c.SameType {
+		sec.Streams[c.J].Type = sec.Streams[c.I].Type
+	}
+	if c.Descs&1 != 0 {
+		sec.Streams[c.I].Descs = []ref.Desc{{Tag: 0x0A, Body: []byte("eng\x00")}}
+	}
+	if c.Descs&2 != 0 {
+		sec.Streams[c.J].Descs = []ref.Desc{{Tag: 0x0A, Body: []byte("fra\x03")}, {Tag: 0x52, Body: []byte{9}}}
+	}
+	w := c06MakeWant(&sec)
+	payload := append(ref.Pointer(0), sec.Bytes()...)
+	engine.Guard(&res, "repeated-entries|NewPMT", func() {
+		pmt, err := psi.NewPMT(payload)
+		if err != nil || pmt == nil {
+			res.Failf("repeated-entries|NewPMT|error", "%v", err)
+			return
+		}
+		c06Verify(&res, "repeated-entries|NewPMT|", pmt, w, true)
+	})
+	padded := append(append([]byte{}, payload...), bytes.Repeat([]byte{0xFF}, 184-len(payload))...)
+	pkt := ref.CarryPayload(0x64, true, 3, padded)
+	engine.Guard(&res, "repeated-entries|ReadPMT", func() {
+		pmt, err := psi.ReadPMT(bytes.NewReader(pkt[:]), 0x64)
+		if err != nil || pmt == nil {
+			res.Failf("repeated-entries|ReadPMT|error", "%v", err)
+			return
+		}
+		c06Verify(&res, "repeated-entries|ReadPMT|", pmt, w, true)
+	})
+	res.Nontrivial = 1
+	res.Outcome(c.N, c.I, c.J, c.SameType, c.Descs)
+	return res
+}
+
 // ---- model self-test against the vectors captured in psi/pmt_test.go -------------------------------------
 
 func c06Pre(r *engine.Run) {
@@ -1401,6 +1454,24 @@ func init() {
 					}
 				},
 				Check: c06CheckProd, Batch: 1,
+			},
+			&engine.Enum[c06RepCase]{
+				Name: "repeated-entries",
+				Rule: "stream lists of 2..5 entries in which entry j names the PID of an earlier entry i (every i<j), with the same or another stream_type, and descriptors on none / the first / the repeat / both (different ones): NewPMT and ReadPMT must report the list entry for entry (stream_type, PID, descriptors) and the PID list with the repetition",
+				Gen: func(r *engine.Run, emit func(c06RepCase)) {
+					for n := 2; n <= 5; n++ {
+						for j := 1; j < n; j++ {
+							for i := 0; i < j; i++ {
+								for _, same := range []bool{true, false} {
+									for d := 0; d < 4; d++ {
+										emit(c06RepCase{n, i, j, same, d})
+									}
+								}
+							}
+						}
+					}
+				},
+				Check: c06CheckRep, Batch: 8,
 			},
 			&engine.Enum[c06HdrCase]{
 				Name: "table-header-codec",
